@@ -5,9 +5,10 @@ from collections import defaultdict
 
 from jaqalpaq.core.algorithm.visitor import Visitor
 from jaqalpaq.core import Macro, NamedQubit, Parameter
-from jaqalpaq.error import JaqalError
+from jaqalpaq.error import JaqalError, nesting_guard
 
 
+@nesting_guard
 def get_used_qubit_indices(obj, context=None):
     """Recursively find all qubits used in this object.
 
